@@ -16,6 +16,7 @@ import (
 	"runtime/debug"
 	"strconv"
 	"strings"
+	"sync/atomic"
 	"syscall"
 	"time"
 
@@ -78,6 +79,8 @@ func main() {
 		}
 	}
 
+	go memoryMonitor()
+
 	in := bufio.NewReaderSize(os.Stdin, 1<<20)
 	out := bufio.NewWriterSize(realStdout, 1<<20)
 	dec := json.NewDecoder(in)
@@ -89,6 +92,7 @@ func main() {
 		}
 		resp := handle(&req)
 		resp.ID = req.ID
+		resp.PeakRSSMB = int(atomic.LoadInt64(&peakRSSMB))
 		if err := enc.Encode(resp); err != nil {
 			fmt.Fprintln(os.Stderr, "encode error:", err)
 			os.Exit(3)
@@ -96,6 +100,44 @@ func main() {
 		out.Flush()
 	}
 	os.RemoveAll(tmpRoot)
+}
+
+// memoryMonitor: a memory budget for the worker process, the counterpart of the tick budgets.
+// The programs of every check need a few dozen MiB (the deepest inputs a few GiB); a worker whose
+// resident set passes the limit is running away (e.g. a collection that came to contain itself is
+// being displayed or copied) and ends with a message the judge attributes to the journalled case,
+// instead of taking the machine down.
+var peakRSSMB int64
+
+func memoryMonitor() {
+	limit := int64(3072)
+	if v, err := strconv.Atoi(os.Getenv("ZNWORKER_RSS_LIMIT_MB")); err == nil && v > 0 {
+		limit = int64(v)
+	}
+	page := int64(os.Getpagesize())
+	buf := make([]byte, 256)
+	for {
+		time.Sleep(25 * time.Millisecond)
+		f, err := os.Open("/proc/self/statm")
+		if err != nil {
+			return
+		}
+		n, _ := f.Read(buf)
+		f.Close()
+		fields := strings.Fields(string(buf[:n]))
+		if len(fields) < 2 {
+			continue
+		}
+		pages, _ := strconv.ParseInt(fields[1], 10, 64)
+		mb := pages * page >> 20
+		if mb > atomic.LoadInt64(&peakRSSMB) {
+			atomic.StoreInt64(&peakRSSMB, mb)
+		}
+		if mb > limit {
+			fmt.Fprintf(os.Stderr, "MEMORY BUDGET EXCEEDED: the worker's resident set reached %d MiB (limit %d MiB)\n", mb, limit)
+			os.Exit(98)
+		}
+	}
 }
 
 func handle(req *Req) (resp Resp) {
